@@ -36,7 +36,7 @@ def run(tier):
     stats = {'G_instances': 0, 'G_calls': 0, 'G_exact_match_id_variant': 0, 'G_exact_match_addr_variant': 0, 'G_tie_calls': 0,
              'G_unresolved_oracle': 0, 'impl_entail_checked': 0, 'impl_topo_checked': 0, 'model_entail_checked': 0,
              'M_compared': 0, 'R_oracle_runs': 0, 'R_model_compared': 0, 'R_fixed_checked': 0, 'constraints_total': 0,
-             'R_third': 0, 'R_model_skipped_not_generic': 0, 'R_with_fixed': 0, 'R_moved_something': 0}
+             'R_third': 0, 'R_model_skipped_not_generic': 0, 'R_huge': 0, 'R_with_fixed': 0, 'R_moved_something': 0}
     corr_fail = []      # model != implementation (no property failure shown yet)
     samples = []
 
@@ -66,8 +66,11 @@ def run(tier):
             keys.append((k, mode))
     rc, iout, err, dt1 = L.run_lines([exe], impl_cmds)
     if rc != 0 or len(iout) != len(impl_cmds):
-        res.violation({'what': 'harness c09_rect crashed in the generator run', 'rc': rc, 'stderr': err[-2000:],
-                       'last_command': impl_cmds[len(iout)] if len(iout) < len(impl_cmds) else None})
+        # the library crashed (segfault / abort) inside a generator call: that call is the failing input
+        at = min(len(iout), len(impl_cmds) - 1)
+        k, mode = keys[at]
+        res.violation({'what': '%s crashed the process (signal / abort) on this rectangle set' % L.MODES[mode], 'rc': rc, 'stderr': err[-1500:],
+                       'input': insts[k].to_json(), 'replay': 'echo "%s" | build/bin/c09_rect-exc-*' % impl_cmds[at]})
         return res.finish()
     rc, mout, err, dt2 = L.run_lines([drv, exe], model_cmds)
     if rc != 0 or len(mout) != len(model_cmds):
@@ -191,6 +194,15 @@ def run(tier):
                 fixed = sorted(set(rng.below(n) for _ in range(rng.range(1, 2))))
         third = rng.chance(1, 2)
         ro.append((inst, fixed, third))
+    for t in range(6 if thorough else 2):
+        # hundreds of rectangles: property oracle only (the model comparison and the certificate stay on the smaller sets)
+        n = rng.range(150, 300)
+        side = rng.choice([12, 30, 60])
+        rects = []
+        for _ in range(n):
+            x, y, w, h = rng.below(side * 8), rng.below(side * 8), rng.range(4, 24), rng.range(4, 24)
+            rects.append((x, x + w, y, y + h))
+        ro.append((L.Inst(8, rects, 0, 0, 'huge'), sorted(set(rng.below(n) for _ in range(rng.below(3)))), rng.chance(1, 2)))
     rc, rout, err, dt4 = L.run_lines([exe], [L.cmd_R_impl(i, f, t) for (i, f, t) in ro])
     if rc != 0 or len(rout) != len(ro):
         bad = ro[len(rout)] if len(rout) < len(ro) else None
@@ -217,7 +229,9 @@ def run(tier):
                            'replay': 'echo "%s" | build/bin/c09_rect-exc-*' % L.cmd_R_impl(inst, fixed, third)})
             if len(res.violations) > 5:
                 break
-        if not L.generic_position(inst):
+        if inst.family == 'huge':
+            stats['R_huge'] += 1
+        elif not L.generic_position(inst):
             stats['R_model_skipped_not_generic'] += 1     # exact ties: binary64 rounding of the non-dyadic 1e-3 padding decides a branch
         elif len(model_cmds) < (900 if thorough else 300):
             model_cmds.append(L.cmd_R_model(inst, fixed, third, 1))
@@ -269,3 +283,30 @@ def replay(path):
 
 def warm():
     L.build('exc')
+
+
+META = {
+    'property_id': PID,
+    'level_claimed': {
+        'category': 'proof',
+        'text': 'Coq theorems over a hand-written statement-by-statement model of rectangle.cpp (scan line with firstAbove/firstBelow and neighbour '
+                'lists, compare_events, CmpNodePos in both the address and the id variant, the three passes of removeoverlaps with the border '
+                'arithmetic): gen_acyclic (every generated constraint goes forward in the CmpNodePos order, so the graph is a DAG; both generators, '
+                'both modes, any event order, any address oracle); entail_check_sound / topo_check_sound (verified certificates: if the longest-path '
+                'closure test accepts, EVERY placement satisfying the constraints has no pair overlapping with positive area); sizes_preserved; '
+                'borders_restored; C09_pipeline_partial (no overlap after the last pass given the solver satisfies that pass and the certificate holds). '
+                'PARTIAL: the chain lemma (the certificate always succeeds on generated sets) is not proved; instead the certificate is evaluated on '
+                'every instance, on the model\'s and on the implementation\'s constraint sets. The model is compared exactly with the compiled '
+                'generators on every run.',
+        'design_ref': 'DESIGN.md 5.9'},
+    'level_note': 'Trusted: Coq kernel; the hand-written models (Rect/RectBase.v, ScanlineModel.v, RemoveOverlapsModel.v: validated by exact correspondence on '
+                  'every run, not derived from the source; cpp2v cannot translate reads of the mutable statics xBorder/yBorder nor intra-class method '
+                  'calls); extraction and the OCaml/C++ drivers; glibc qsort = merge sort (compare_events is not a consistent comparator). The solver is '
+                  'a parameter of the model (C01/C02 own it); in the correspondence it is the real vpsc::Solver. The exact-rational model cannot follow '
+                  'branches decided by binary64 rounding of the non-dyadic 1e-3 padding, so removeoverlaps is compared with the model only on '
+                  'generic-position inputs (1e-6); on all inputs the property\'s own oracle checks the real output (no overlap 1e-6, sizes 1e-9, borders '
+                  'restored, no exception). Fixed rectangles are weighted 10000:1, not pinned: the "<1% of mean size" clause is checked for one fixed '
+                  'rectangle among at most 8 (where the weighted mean bounds the movement); it is false for large clusters or mutually overlapping fixed '
+                  'rectangles and is not claimed there. Exception path (F-e: catch(char*) never matches) is not reachable on DAGs and not covered.',
+    'technique': 'Coq proof over a hand-written model + exact correspondence + verified certificate checkers on real outputs',
+}
